@@ -72,3 +72,7 @@ pub mod task {
 pub mod tests {
     pub use crate::internal::tests::*;
 }
+
+/// Verification hooks (add-only; compiled only with `--cfg it4innovations_hyperqueue_verif`).
+#[cfg(it4innovations_hyperqueue_verif)]
+pub mod verif;
